@@ -22,9 +22,22 @@ for d in sys.argv[1:]:
     mm = re.search(r"(?is)(what it needs[^\n]*\n+)(.*?)(\n#|\n\*\*|\Z)", readme)
     if mm: needs = " ".join(mm.group(2).split())[:600]
     results = ev.get("results", [])
+    # one-line summary: files touched by the patch
+    files = re.findall(r"^\+\+\+ b/(\S+)", open(os.path.join(d, "patch.diff")).read(), re.M)
+    summary = "(" + ", ".join(files) + ")"
+    old_meta = {}
+    if os.path.exists(os.path.join(ROOT, "seeded", f"{prop}-{n}", "meta.json")):
+        old_meta = json.load(open(os.path.join(ROOT, "seeded", f"{prop}-{n}", "meta.json")))
+    history = old_meta.get("history", "")
+    was_missed = old_meta.get("checks_run", {}).get("detected") is False
+    now_detected = any(r.get("rc") == 1 for r in results)
+    if was_missed and now_detected and not history:
+        history = "missed by the check as first built (exit 0); caught after the check was strengthened for the class of the miss (see notes/%s.md)" % prop
     meta = {
         "id": f"{prop}-{n}",
         "breaks_property": prop,
+        "summary": summary,
+        "history": history,
         "origin": "independent sub-agent given only the property text and a scratch worktree (nothing from /verif)",
         "needs_to_manifest": needs or "see README.md",
         "confirmed_by_me": {
